@@ -13,6 +13,7 @@ import json
 import multiprocessing
 import os
 import random
+import sys
 import tempfile
 
 from harness import checks_seq
@@ -164,6 +165,11 @@ def run(pid, tier, out):
     hyg = common.hygiene()
     n_hist, n_ops = BUDGET[tier]
     model_ok = all(common.vo_fresh(d) for d in checks_seq.MODEL + ['Model/Reads.v'])
+    # (0) reads issued DURING write requests (harness/midreads.py), in a process of its own, collected below
+    import subprocess
+    env = dict(os.environ, PYTHONPATH='%s:%s' % (os.environ.get('VERIF_REPO', '/repo'), common.ROOT), PYTHONHASHSEED='0')
+    mid_proc = subprocess.Popen([sys.executable, '-m', 'harness.midreads', '--json'], stdout=subprocess.PIPE, stderr=subprocess.PIPE,
+                                cwd=common.ROOT, env=env, text=True)
     # (1) writes
     wstats = {'evaluations': 0, 'status': collections.Counter(), 'ops': collections.Counter(), 'distinct': set()}
     whits = []
@@ -210,10 +216,25 @@ def run(pid, tier, out):
     cx = conc_extra.call('C11', tier)
     if cx.get('error') or cx.get('model_error'):
         corr_error = (corr_error or '') + ' interleaving stream: %s' % (cx.get('error') or cx.get('model_error'))[-600:]
+    mid = {'points': 0, 'reads': 0, 'problems': []}
+    try:
+        mout, merr = mid_proc.communicate(timeout=3000)
+        mid = json.loads(mout)
+    except Exception as exc:      # noqa
+        mid_proc.kill()
+        corr_error = (corr_error or '') + ' reads during requests: %s' % str(exc)[-300:]
     proof_broken = (not ps['ok']) or bool(hyg) or not ok_tr
     tie_broken = bool(bad) or bool(wdis) or corr_error is not None
 
     found = False
+    for b in mid['problems'][:3]:
+        found = True
+        out.violation({'kind': 'mid-read', 'corpus': b['corpus'], 'transaction': b['transaction'], 'path': b['path'],
+                       'version': b['version'], 'mid': b['mid'], 'before': b['before'], 'after': b['after'],
+                       'replay_cmd': 'python -m harness.midreads %s' % b['corpus']},
+                      'GET %s at 1.%s answered while request %s was between its transactions (%s) reports %s - neither the state '
+                      'before the request (%s) nor after it' % (b['path'], b['version'], b['corpus'], b['transaction'],
+                                                               str(b['mid'])[:160], str(b['before'])[:120]))
     seen_cx = set()
     for v in cx['violations']:
         key = (v['payload']['scenario']['name'], v['payload']['check'])
@@ -263,7 +284,7 @@ def run(pid, tier, out):
                'GET /traits?name=startswith: is not modelled (names are opaque tokens)'],
            'theorems': [{'name': n, 'closed_under_global_context': c, 'assumptions': a} for n, c, a in ps['theorems']],
            'proof_error': ps['error'], 'hygiene_hits': hyg,
-           'evaluations': n_reads + wstats['evaluations'], 'distinct_nontrivial': sum(v for k, v in cover.items() if k[2]) + len(wstats['distinct']),
+           'evaluations': n_reads + wstats['evaluations'] + mid['reads'], 'reads_during_requests': mid['reads'], 'points_inside_requests': mid['points'], 'distinct_nontrivial': sum(v for k, v in cover.items() if k[2]) + len(wstats['distinct']),
            'rule': '%d histories x %d generated requests, each followed by every read route for every provider/consumer/project/class/trait of the '
                    'pools at the microversions around each representation change (a case = one read after one prefix; non-trivial = '
                    'answered 200 with rows) + %d write histories x 30 requests compared with the model' % (n_hist, n_ops, len(cases)),
@@ -284,6 +305,14 @@ def replay(pid, path, out):
             out.violation(v['payload'], v['text'])
         return
     d = json.load(open(path))
+    if d.get('kind') == 'mid-read':
+        from harness import midreads
+        n, r, bad = midreads.run(d.get('corpus'))
+        for b in bad[:1]:
+            out.violation(dict(d, mid=b['mid'], before=b['before'], after=b['after']),
+                          'GET %s at 1.%s answered while request %s was between its transactions reports %s - neither the state before '
+                          'the request nor after it' % (b['path'], b['version'], b['corpus'], str(b['mid'])[:160]))
+        return
     if d.get('kind') in ('history', 'read') and d.get('ops'):
         ops_ = [checks_seq.tuple_op(o) for o in d['ops']]
         steps = reads.run_one(None, 0, op_list=ops_)
